@@ -371,6 +371,7 @@ class WMTS100RestFeatureInfoRequest(TileRequest):
     """
     xml_exception_handler = WMTS100ExceptionHandler
     request_handler_name = 'featureinfo'
+    origin = 'nw'
 
     def __init__(self, request, req_vars, url_converter=None):
         self.http = request
